@@ -428,6 +428,13 @@ def kc_case(draw, max_small=14, max_bulk=40, bulk_share=4, init_kinds=("none", "
                     cutoff, j_r = 0.0, jmax
                 else:
                     cutoff, j_r = targets[c], c
+                    # "tight" variant: the cutoff sits only 4e-6 (relative) below the radius reached with c-1 centers.
+                    # That is ~1e10 rounding errors away (distances are formed in double), so the exact rule
+                    # `radius > cutoff` must still continue to c centers; a tolerance-based comparison stops early.
+                    tight = radii[c - 1] * (1.0 - 4e-6)
+                    if (dtype != "float32" and draw(st.integers(0, 3)) == 0
+                            and tight > radii[c] * (1.0 + 1e-6) + 1e-9 * scale):
+                        cutoff = tight
         if crit in ("n", "both"):
             lo_n = m0 + 1
             cand = list(range(lo_n, n + 2))
